@@ -24,6 +24,20 @@ ASSUMPTIONS = ['a solver may refresh the ghost layer / cached boundary term of a
                'digest of such inputs is taken over the visible state (interior values, boundary coefficient arrays, periodic flags)']
 
 
+def bc_objects(obj, path='o'):
+    """(path, BoundaryConditions object) pairs reachable from a variable / list"""
+    from pyfvtool.boundary import BoundaryConditionsBase
+    out = []
+    if isinstance(obj, BoundaryConditionsBase):
+        out.append((path, obj))
+    elif isinstance(obj, pf.CellVariable):
+        out.append((path + '.BCs', obj.BCs))
+    elif isinstance(obj, (list, tuple)):
+        for i, o in enumerate(obj):
+            out += bc_objects(o, '%s[%d]' % (path, i))
+    return out
+
+
 def setup(rng, cls, nmax):
     faces, meta = gen.gen_grid(rng, cls, nmin=1, nmax=nmax)
     g = Geom(cls, faces)
@@ -43,11 +57,24 @@ FUNCS = ['diffusionTerm', 'convectionTerm', 'convectionUpwindTerm', 'convectionU
          'plotprofile', 'copy', 'fluxLimiter-call', 'celleval', 'faceeval']
 
 
-def build_call(name, rng, m, g, spec):
+# functions that receive the variable `phi` of build_call (the pending-edit variants apply to them)
+PHI_FUNCS = ['convectionTVDupwindRHSTerm', 'linearSourceTerm', 'constantSourceTerm', 'transientTerm:scalar', 'transientTerm:ndarray', 'transientTerm:cellvar',
+             'gradientTerm', 'gradientTermFixedBC', 'linearMean', 'arithmeticMean', 'geometricMean', 'harmonicMean', 'upwindMean', 'solveExplicitPDE',
+             'domainIntegral', 'plotprofile', 'copy', 'celleval']
+
+
+def build_call(name, rng, m, g, spec, dirty=None):
     """returns (callable taking the argument list, argument list, objects allowed to change (visible-only), mesh list)"""
     BC = gen.make_bc(pf, m, g, spec)
     vals = np.abs(rng.normal(0, 1, g.dims)) + 0.2
     phi = pf.CellVariable(m, vals.copy(), BC)
+    if dirty == 'value':
+        # pending value edit through the public setter: boundary values not refreshed yet, dirty flag raised - a pure builder
+        # leaves both exactly as they are (refreshing is the solvers' business)
+        vals = vals * 0.5 + 1.0
+        phi.value = vals
+    elif dirty == 'bc':
+        phi.BCs.right.c = np.asarray(phi.BCs.right.c) + 0.75
     D, _ = gen.face_arrays(rng, g, 'random', positive=True)
     u, _ = gen.face_arrays(rng, g, 'sign')
     Df, uf = gen.facevar(pf, m, D), gen.facevar(pf, m, u)
@@ -144,9 +171,11 @@ def run_case(case):
         if kind == 'call':
             name = case['func']
             state = rng.bit_generator.state
-            fn, args, allowed = build_call(name, rng, m, g, spec)
+            dirty = case.get('dirty')
+            fn, args, allowed = build_call(name, rng, m, g, spec, dirty)
             rng.bit_generator.state = state
-            fn2, args2, allowed2 = build_call(name, rng, m, g, spec)      # equal inputs, separate objects
+            fn2, args2, allowed2 = build_call(name, rng, m, g, spec, dirty)      # equal inputs, separate objects
+            cov['input_state:%s' % (dirty or 'clean')] = 1
             visible = [a for a in allowed if not isinstance(a, str)]
             if 'SOLUTION' in allowed:
                 # solvePDE: everything but the solution variable must stay byte-identical (incl. the caller's list of terms)
@@ -178,6 +207,29 @@ def run_case(case):
             hits = aliases(ret, [m])
             if hits:
                 bad.append(('aliases-grid', '%s on %s returns an object aliasing grid storage: %s' % (name, cls, hits[:3])))
+            # aliasing of the inputs' storage (coefficient variables, arrays, terms): a stored term must not change when its
+            # coefficient variable is edited later, nor the other way round. Excluded: the solution variable solvePDE returns,
+            # and boundary-condition objects that are shared by identity on purpose (constructor with a BC argument, explicit solver)
+            shared_bcs = [o for _p, o in bc_objects(ret) if any(o is q for _p2, q in sum([bc_objects(x) for x in args], []))]
+            in_arrs = []
+            for ai, x in enumerate(args):
+                if x is ret:
+                    continue
+                for p, a in reach(x, 'arg%d' % ai):
+                    if '.domain' in p or not isinstance(a, np.ndarray) or a.size == 0:
+                        continue
+                    in_arrs.append((p, a))
+            ihits = []
+            if 'SOLUTION' not in allowed:
+                for pr, ar in reach(ret, 'ret'):
+                    if '.domain' in pr or not isinstance(ar, np.ndarray) or ar.size == 0 or (shared_bcs and '.BCs.' in pr):
+                        continue
+                    for pi_, ai_ in in_arrs:
+                        if np.shares_memory(ar, ai_):
+                            ihits.append('%s aliases %s' % (pr, pi_))
+                cov['input_alias_probes'] = 1
+            if ihits:
+                bad.append(('aliases-input', '%s on %s returns an object sharing storage with its input: %s' % (name, cls, ihits[:3])))
             # in-place edit probe on the returned object, then re-digest the mesh
             ms0 = snapshot([m])
             for p, a in reach(ret, 'ret'):
@@ -234,6 +286,10 @@ def plan(tier, seed):
             for fn in FUNCS:
                 cases.append({'cls': cls, 'kind': 'call', 'func': fn, 'seed': [seed, 15, ci, i]})
                 i += 1
+                if fn in PHI_FUNCS:
+                    for dirty in ('value', 'bc'):
+                        cases.append({'cls': cls, 'kind': 'call', 'func': fn, 'dirty': dirty, 'seed': [seed, 15, ci, i]})
+                        i += 1
             for r2 in range(3):
                 cases.append({'cls': cls, 'kind': 'reuse', 'seed': [seed, 15, ci, i]})
                 i += 1
@@ -248,6 +304,9 @@ def floors(agg, tier):
     for fn in FUNCS:
         if agg['cov'].get('purity_calls:' + fn, 0) < 9:
             out.append('purity_calls:%s < 9' % fn)
+    for k in ('input_state:clean', 'input_state:value', 'input_state:bc', 'input_alias_probes'):
+        if agg['cov'].get(k, 0) < 100:
+            out.append('%s < 100' % k)
     if agg['cov'].get('reuse_loops', 0) < 9:
         out.append('reuse_loops < 9')
     return out
